@@ -118,6 +118,10 @@ func CheckC03(c Case, r Result) (*Violation, []string, bool) {
 	if injected > 0 {
 		classes = append(classes, "injected-send-failure")
 	}
+	if r.Cuts > 0 {
+		classes = append(classes, "connection-cut")
+		injected += int(r.Cuts)
+	}
 	straggler := false
 	kinds := map[string]bool{}
 	for _, ci := range r.Calls {
@@ -536,7 +540,7 @@ func CheckC05(c Case, r Result) (*Violation, []string, bool) {
 func noForeignFailure(c Case, r Result, prop string) *Violation {
 	for _, op := range c.Ops {
 		switch op.Kind {
-		case "stop", "start", "close", "flood":
+		case "stop", "start", "close", "flood", "cut":
 			return nil
 		case "call":
 			if op.CancelUs > 0 || op.Call.Ctx == "deadline" || op.Call.Ctx == "precancelled" || scen.IsUnhandled(op.Call.Kind) {
